@@ -105,7 +105,9 @@ def core3Sample : Core3.Func :=
       ⟨none, 94, [.loc (.id 6), .unwind (some (.name [99, 115]))], .none, []⟩⟩,
     ⟨.name [108], [⟨some (.id 7), 85, [.ty (.struct false (.cons (.ptr (.int 8) 0) (.cons (.int 32) .nil)))],
                     .clauses true [(false, .ptr (.int 8) 0, .const .null)], []⟩],
-      ⟨none, 86, [.tyval (.struct false (.cons (.ptr (.int 8) 0) (.cons (.int 32) .nil))) (.loc (.id 7))], .none, []⟩⟩]⟩
+      ⟨none, 86, [.tyval (.struct false (.cons (.ptr (.int 8) 0) (.cons (.int 32) .nil))) (.loc (.id 7))], .none, []⟩⟩],
+   -- `define internal dso_local hidden dllexport fastcc i32 @f(…)`
+   [3, 11, 14, 16, 19]⟩
 
 example : Core3.wf core3Sample = true := by decide +kernel
 example : Core3.mdWF IntLit.hexChoice core3Sample = true := by decide +kernel
